@@ -386,7 +386,7 @@ func (ft *ftrans) newLoop(list, vname, vt string, body []ast.Stmt, bodyNode ast.
 	}
 	if ft.heapName != "" && ft.writesHeap(bodyNode) {
 		names = append(names, ft.heapName)
-		types = append(types, ft.t.mod.HeapCfg.Type)
+		types = append(types, ft.heapType)
 	}
 	pat, sigma := tupleOf(names), strings.Join(types, " × ")
 	if len(names) == 0 {
@@ -606,6 +606,15 @@ func (ft *ftrans) heapCalleeNamed(fun ast.Expr, kinds string) bool {
 	if name == "" {
 		return false
 	}
+	if ft.f.cfg != nil && ft.f.cfg.Callback != "" && strings.Contains(kinds, "|rw|") {
+		// a call of the callback, or of the function itself (which hands the callback on), changes the state
+		if id, isID := fun.(*ast.Ident); isID && id.Name == ft.f.cfg.Callback {
+			return true
+		}
+		if name == lastPart(ft.f.cfg.Go) {
+			return true
+		}
+	}
 	for _, c := range ft.t.mod.Callees {
 		if c.Heap != "" && strings.Contains(kinds, "|"+c.Heap+"|") && lastPart(c.Go) == name {
 			return true
@@ -686,7 +695,7 @@ func (ft *ftrans) heapStmt(ce *ast.CallExpr, e env, k cont) node {
 		as = append(as, atom(v.s))
 	}
 	term := subst(ft.heapSubst(cal), recvS, as)
-	return ft.wrap(pre, nLet{name: ft.heapName, typ: ft.t.mod.HeapCfg.Type, val: term, body: k(e)})
+	return ft.wrap(pre, nLet{name: ft.heapName, typ: ft.heapType, val: term, body: k(e)})
 }
 
 // visitCall: `x.M(args…, func(p…) { body })` for a callee of kind "visit": the closure's body runs once per
@@ -1003,4 +1012,57 @@ func (ft *ftrans) nilSliceResult(x ast.Expr, v val, e env) string {
 		failf("nil_slices: the returned variable %s may be nil", id.Name)
 	}
 	return "some " + atom(v.s)
+}
+
+// callbackStmt: `fn(args)` for the callback parameter, or a statement call of the function itself that hands the
+// callback on as its last argument: the state is rebound
+func (ft *ftrans) callbackStmt(ce *ast.CallExpr, e env, k cont) node {
+	g := ft.f
+	if g.cfg == nil || g.cfg.Callback == "" {
+		return nil
+	}
+	var pre []prelude
+	if id, ok := ce.Fun.(*ast.Ident); ok && id.Obj == g.cbObj && id.Obj != nil {
+		if len(ce.Args) != len(g.cbTypes) {
+			failf("the callback is called with %d arguments", len(ce.Args))
+		}
+		var as []string
+		for i, a := range ce.Args {
+			v := ft.coerce(g.cbTypes[i], ft.expr(a, e, &pre))
+			as = append(as, atom(v.s))
+		}
+		term := g.cfg.Callback + " " + ft.heapName + " " + strings.Join(as, " ")
+		return ft.wrap(pre, nLet{name: ft.heapName, typ: ft.heapType, val: term, body: k(e)})
+	}
+	if ft.calledFn(ce, e) != g || len(ce.Args) == 0 {
+		return nil
+	}
+	last, ok := unparen(ce.Args[len(ce.Args)-1]).(*ast.Ident)
+	if !ok || last.Obj != g.cbObj {
+		failf("a call of the function itself that does not hand the callback on is outside the subset")
+	}
+	if !g.cfg.Fuel {
+		failf("a function that calls itself needs \"fuel\"")
+	}
+	var as []string
+	if sel, isSel := ce.Fun.(*ast.SelectorExpr); isSel && g.decl.Recv != nil {
+		recv := ft.expr(sel.X, e, &pre)
+		as = append(as, atom(recv.s))
+	}
+	off := len(as)
+	for i, a := range ce.Args[:len(ce.Args)-1] {
+		v := ft.expr(a, e, &pre)
+		if off+i < len(g.params) {
+			v = ft.coerce(g.params[off+i].typ, v)
+		}
+		as = append(as, atom(v.s))
+	}
+	term := ft.t.mod.Namespace + "." + g.cfg.Lean
+	if ft.t.mod.ParamArgs != "" {
+		term += " " + ft.t.mod.ParamArgs
+	}
+	term += " fuel " + strings.Join(as, " ") + " " + g.cfg.Callback + " " + ft.heapName
+	n := ft.tmp()
+	pre = append(pre, prelude{n, term}) // out of fuel (or a panic further down) is the outer none
+	return ft.wrap(pre, nLet{name: ft.heapName, typ: ft.heapType, val: n, body: k(e)})
 }
